@@ -2,10 +2,18 @@
 
 package slip
 
-import "strings"
+import (
+	"regexp"
+	"strings"
+)
 
 // SymbolSymbol is the symbol with a value of "symbol".
 const SymbolSymbol = Symbol("symbol")
+
+// Digits, signs, / and . that do not end with a sign or a float with an
+// exponent marker.
+var numberLikeRegex = regexp.MustCompile(
+	`^[-+]?[0-9]([-+/.0-9]*[/.0-9])?$|^[-+]?[0-9]+\.?[0-9]*[esfdlESFDL][-+]?[0-9]+$`)
 
 // Symbol is a symbol Object.
 type Symbol string
@@ -30,14 +38,32 @@ func (obj Symbol) Readably(b []byte, p *Printer) []byte {
 	if obj[0] == ':' {
 		return append(b, p.caseName(string(obj))...)
 	}
+	needPipe := numberLike(string(obj))
 	for _, c := range []byte(obj) {
 		if needPipeMap[c] == 'x' {
-			b = append(b, '|')
-			b = append(b, p.caseName(string(obj))...)
-			return append(b, '|')
+			needPipe = true
+			break
 		}
 	}
+	if needPipe {
+		b = append(b, '|')
+		b = append(b, p.caseName(string(obj))...)
+		return append(b, '|')
+	}
 	return append(b, p.caseName(string(obj))...)
+}
+
+// numberLike returns true if the name would be read as a number or looks
+// enough like one, 1/-2 for example, that it is better written as |1/-2|.
+func numberLike(name string) bool {
+	i := 0
+	if name[0] == '-' || name[0] == '+' {
+		i++
+	}
+	if len(name) <= i || name[i] < '0' || '9' < name[i] {
+		return false
+	}
+	return numberLikeRegex.MatchString(name)
 }
 
 // Simplify the Object into a string.
